@@ -2,11 +2,13 @@
 """Self-test of tools/translate_groupinit.py (the regenerated reading of a group configuration, Gen/GroupInitGen.v).
 
 (a) runs the translator on the clean source ($VERIF_REPO, default /repo; only a scratch COPY is ever modified) and checks
-    that the output is the current coq/Gen/GroupInitGen.v, compiles, and that Lemmas/GroupInitGenLemmas.v compiles
-    against it;
+    that the output is the current coq/Gen/GroupInitGen.v, compiles, and that the lemma files about it compile against
+    it, in dependency order: Lemmas/GroupInitGenLemmas.v, Lemmas/YamlRelLemmas.v (if present),
+    Lemmas/GroupConfigGenLemmas.v, Lemmas/GroupCfgOk.v, Lemmas/FromYamlLemmas.v, Lemmas/AbsIndexLemmas.v,
+    Lemmas/CfgRawVerdict.v, Lemmas/ConfigFromYamlLemmas.v;
 (b) applies small mutations to a scratch copy of the source (utils/command_line/common.py, group_config.py,
     execution_context/transactions.py and fingerprinted helpers) and shows that, for each, either the translator stops
-    (TranslateError) or the generated Gallina differs AND Lemmas/GroupInitGenLemmas.v no longer compiles against it;
+    (TranslateError) or the generated Gallina differs AND one of the lemma files no longer compiles against it;
     one semantically neutral mutant (e1: a local variable renamed) is a control: its Gallina differs and the lemmas
     must still compile.
 
@@ -34,6 +36,9 @@ CFG = "tealer/utils/command_line/group_config.py"
 TX = "tealer/execution_context/transactions.py"
 FN = "tealer/teal/functions.py"
 ENUM = "tealer/utils/teal_enums.py"
+TEAL = "tealer/teal/teal.py"
+# the lemma files about Gen/GroupInitGen.v, in dependency order (compiled in the scratch directory)
+LEMMA_FILES = ("GroupInitGenLemmas.v", "YamlRelLemmas.v", "GroupConfigGenLemmas.v", "GroupCfgOk.v", "FromYamlLemmas.v", "AbsIndexLemmas.v", "CfgRawVerdict.v", "ConfigFromYamlLemmas.v")
 
 
 def sh(cmd, cwd=None, env=None):
@@ -79,6 +84,13 @@ FOREIGN = (
     "                            f\"other_txn_id: {other_txn_id} is not present in the same group\"\n                        )\n"
 )
 
+BLOCK_IF = '            if not block_id.startswith("B") or not block_id[1:].isdigit():\n'
+FN_STORE = "            contract_functions[function_config.name] = func\n"
+TRY_BLOCK = (
+    "            try:\n                parsed_functions.append(GroupConfigFunction.from_yaml(function))\n            except InvalidGroupConfiguration as err:\n"
+    "                # pylint: disable=raise-missing-from\n                raise InvalidGroupConfiguration(f\"Contract name: {name}\\n{err}\")\n"
+)
+
 MUTATIONS = [
     ("(1) has_logic_sig not forced when a logic_sig is given", COMMON, rep(FORCE, "                txn_obj.logic_sig = logic_sig_function\n")),
     ("(2) application stored as logic_sig and vice versa", COMMON, chain(rep("                txn_obj.application = app_function\n", "                txn_obj.logic_sig = app_function\n"), rep("                txn_obj.logic_sig = logic_sig_function\n", "                txn_obj.application = logic_sig_function\n"))),
@@ -111,12 +123,47 @@ MUTATIONS = [
     ("(29) from_yaml: unknown transaction type accepted", CFG, rep('        if txn_type not in USER_CONFIG_TRANSACTION_TYPES:\n            raise InvalidGroupConfiguration(\n                f"Transaction: Unknown transaction type {txn_type} of transaction {txn_id}"\n            )\n', "")),
     ("(30) from_yaml: absolute_index read from another key", CFG, rep('        absolute_index = transaction.get("absolute_index")\n', '        absolute_index = transaction.get("absolute_indexes")\n')),
     ("(31) dataclass: has_logic_sig defaults to False", CFG, rep("    has_logic_sig: Optional[bool] = None\n", "    has_logic_sig: Optional[bool] = False\n")),
-    ("(32) contracts loop no longer sets teal.contract_type (fingerprint)", COMMON, rep("        teal.contract_type = given_contract_type\n", "")),
+    ("(32) contracts loop no longer sets teal.contract_type", COMMON, rep("        teal.contract_type = given_contract_type\n", "")),
     ("(33) Function.contract no longer the constructor argument (fingerprint)", FN, rep('        self.contract: "Teal" = contract\n', '        self.contract: "Teal" = None\n')),
     ("(34) ContractType values collide (fingerprint)", ENUM, rep("    ApprovalProgram = 1\n", "    ApprovalProgram = 0\n")),
     ("(35) while statement", COMMON, rep(LOOP2, "        while False:\n            pass\n" + LOOP2)),
     ("(36) second loop iterates the objects, not the configuration", COMMON, rep("        for txn in txn_config.transactions:\n            txn_obj = txn_id_to_obj[txn.txn_id]\n", "        for txn in reversed(txn_config.transactions):\n            txn_obj = txn_id_to_obj[txn.txn_id]\n")),
     ("(37) exception messages swapped (repeated <-> foreign)", COMMON, chain(rep('f"{txn.txn_id} is repeated in the same group."', 'f"other_txn_id: {txn.txn_id} is not present in the same group"'), rep('f"other_txn_id: {other_txn_id} is not present in the same group"', 'f"{other_txn_id} is repeated in the same group."'))),
+    # ---- the contracts part (GroupConfigFunction / GroupConfigContract / GroupConfig, contract_type_from_txt, contracts loop)
+    ("(38) block id: prefix test uses \"b\"", CFG, rep('block_id.startswith("B")', 'block_id.startswith("b")')),
+    ("(39) block id: isdigit test dropped", CFG, rep(BLOCK_IF, '            if not block_id.startswith("B"):\n')),
+    ("(40) block id: [1:] -> [2:]", CFG, rep("block_id[1:].isdigit()", "block_id[2:].isdigit()")),
+    ("(41) block id: or -> and", CFG, rep(BLOCK_IF, '            if not block_id.startswith("B") and not block_id[1:].isdigit():\n')),
+    ("(42) contract: required field list loses subroutines", CFG, rep('        required_fields = ["file_path", "type", "version", "subroutines", "functions"]\n', '        required_fields = ["file_path", "type", "version", "functions"]\n')),
+    ("(43) GROUP_CONFIG_CONTRACT_TYPES gains Unknown", CFG, rep('    "ClearStateProgram",\n]\n', '    "ClearStateProgram",\n    "Unknown",\n]\n')),
+    ("(44) contract_type_from_txt loses ClearStateProgram", ENUM, rep('        "ClearStateProgram": ContractType.ClearStateProgram,\n', "")),
+    ("(45) contract_type_from_txt: LogicSig read as ApprovalProgram", ENUM, rep('        "LogicSig": ContractType.LogicSig,\n', '        "LogicSig": ContractType.ApprovalProgram,\n')),
+    ("(46) contracts loop: functions stored under the dispatch path (fail: type)", COMMON, rep(FN_STORE, "            contract_functions[function_config.dispatch_path] = func\n")),
+    ("(47) contracts loop: functions stored under the contract's name", COMMON, rep(FN_STORE, "            contract_functions[contract_config.name] = func\n")),
+    ("(48) contracts loop: construct_function arguments swapped (fail: type)", COMMON, rep("construct_function(teal, function_config.dispatch_path, function_config.name)", "construct_function(teal, function_config.name, function_config.dispatch_path)")),
+    ("(49) contracts loop: contracts keyed by file path", COMMON, rep("        contracts[contract_config.name] = teal\n", "        contracts[contract_config.file_path] = teal\n")),
+    ("(50) contract: try / except around the function reader dropped", CFG, rep(TRY_BLOCK, "            parsed_functions.append(GroupConfigFunction.from_yaml(function))\n")),
+    ("(51) contract: re-raised message without the caught one", CFG, rep('raise InvalidGroupConfiguration(f"Contract name: {name}\\n{err}")', 'raise InvalidGroupConfiguration(f"Contract name: {name}")')),
+    ("(52) function: check that name is given dropped", CFG, rep('        if "name" not in function:\n            raise InvalidGroupConfiguration("function name is not given")\n', "")),
+    ("(53) dataclass GroupConfigContract: file_path / contract_type swapped", CFG, rep("    file_path: Path\n    contract_type: str\n", "    contract_type: str\n    file_path: Path\n")),
+    ("(54) contracts loop: teal.functions store dropped", COMMON, rep("        teal.functions = contract_functions\n", "")),
+    ("(55) contracts loop: parse_teal named by the file path", COMMON, rep("            teal = parse_teal(f.read(), contract_config.name)\n", "            teal = parse_teal(f.read(), contract_config.file_path)\n")),
+    ("(56) contracts loop: teal stored in the table before its functions are set (alias)", COMMON, rep("        teal.functions = contract_functions\n        contracts[contract_config.name] = teal\n", "        contracts[contract_config.name] = teal\n        teal.functions = contract_functions\n")),
+    ("(57) config: groups read from the contracts key", CFG, rep('        for group in config["groups"]:\n', '        for group in config["contracts"]:\n')),
+    ("(58) contract: type check inverted", CFG, rep("        if contract_type not in GROUP_CONFIG_CONTRACT_TYPES:\n", "        if contract_type in GROUP_CONFIG_CONTRACT_TYPES:\n")),
+    ("(59) contracts loop: inner loop over the reversed functions", COMMON, rep("        for function_config in contract_config.functions:\n", "        for function_config in reversed(contract_config.functions):\n")),
+    ("(60) contracts loop: contract_functions not reset per contract", COMMON, chain(rep('        contract_functions: Dict[str, "Function"] = {}\n', ""), rep('    contracts: Dict[str, "Teal"] = {}\n', '    contracts: Dict[str, "Teal"] = {}\n    contract_functions: Dict[str, "Function"] = {}\n'))),
+    ("(61) InvalidGroupConfiguration defines __str__", CFG, rep("class InvalidGroupConfiguration(Exception):\n    pass\n", "class InvalidGroupConfiguration(Exception):\n    def __str__(self):\n        return \"\"\n")),
+    ("(62) Teal.functions setter copies the dict (fingerprint)", TEAL, rep("        self._functions = functions\n", "        self._functions = dict(functions)\n")),
+    # ---- the group readers, for every YAML map (Lemmas/FromYamlLemmas.v) / the view of the absolute index
+    ("(y1) from_yaml: txn_type no longer a required field (KeyError instead)", CFG, rep('check_fields_are_present(["txn_id", "txn_type"], transaction)', 'check_fields_are_present(["txn_id"], transaction)')),
+    ("(y2) from_yaml: offset no longer required in a relative index", CFG, rep('check_fields_are_present(["other_txn_id", "offset"], relative_index)', 'check_fields_are_present(["other_txn_id"], relative_index)')),
+    ("(y3) from_yaml: function of a call read from the key contract", CFG, rep('        function = function_call["function"]\n', '        function = function_call["contract"]\n')),
+    ("(y4) from_yaml: operation no longer a required field of a group", CFG, rep('check_fields_are_present(["operation", "transactions"], group)', 'check_fields_are_present(["transactions"], group)')),
+    ("(y5) from_yaml: logic_sig only parsed when no application is given", CFG, rep("        if logic_sig is not None:\n            logic_sig = GroupConfigFunctionCall.from_yaml(logic_sig)\n", "        if logic_sig is not None and application is None:\n            logic_sig = GroupConfigFunctionCall.from_yaml(logic_sig)\n")),
+    ("(y6) from_yaml: has_logic_sig read from the key logic_sig", CFG, rep('        has_logic_sig = transaction.get("has_logic_sig")\n', '        has_logic_sig = transaction.get("logic_sig")\n')),
+    ("(y7) from_yaml: transactions of a group collected in reverse", CFG, rep("            parsed_transactions.append(GroupConfigTransaction.from_yaml(transaction))\n", "            parsed_transactions.insert(0, GroupConfigTransaction.from_yaml(transaction))\n")),
+    ("(y8) dataclass: absolute_index declared Optional[str]", CFG, rep("    absolute_index: Optional[int] = None\n", "    absolute_index: Optional[str] = None\n")),
     ("(e1) EQUIVALENT: local variable app_function renamed", COMMON, rep("app_function", "the_app_function", 3)),
 ]
 EQUIVALENT = {"(e1) EQUIVALENT: local variable app_function renamed"}
@@ -167,24 +214,36 @@ def run_case(work, scratch, rel=None, mutate=None):
         res["text"] = fh.read()
     for f in GEN_DEPS:
         os.symlink(os.path.join(COQ, "Gen", f), os.path.join(gen, f))
-    lemv = os.path.join(lem, "GroupInitGenLemmas.v")
-    shutil.copy(os.path.join(COQ, "Lemmas", "GroupInitGenLemmas.v"), lemv)
-    q = f"-Q {COQ}/Model Tealer -Q {gen} Tealer -Q {COQ}/Spec Tealer -Q {COQ}/Lemmas Tealer"
+    # the scratch Lemmas directory: the compiled lemma files that do not depend on Gen/GroupInitGen.v are linked, the
+    # ones that do are copied and compiled here, in dependency order, against the scratch Gen
+    present = [f for f in LEMMA_FILES if os.path.exists(os.path.join(COQ, "Lemmas", f))]
+    for f in os.listdir(os.path.join(COQ, "Lemmas")):
+        if f.endswith(".vo") and f[:-1] not in LEMMA_FILES:
+            os.symlink(os.path.join(COQ, "Lemmas", f), os.path.join(lem, f))
+    q = f"-Q {COQ}/Model Tealer -Q {gen} Tealer -Q {COQ}/Spec Tealer -Q {lem} Tealer"
     rc, out = sh(f"timeout 300 coqc {q} {gen}/GroupInitGen.v 2>&1")
     res["gen_ok"] = rc == 0
     res["log"] += "\n" + out[-1500:]
     if rc == 0:
-        rc, out = sh(f"timeout 900 coqc {q} {lemv} 2>&1")
-        res["lemmas_ok"] = rc == 0
-        res["log"] += "\n" + out[-1500:]
-        if rc != 0:
-            m = re.search(r"line (\d+), characters", out)
-            res["where"] = f"{enclosing(lemv, int(m.group(1)))} (line {m.group(1)})" if m else "?"
+        res["lemmas_ok"] = True
+        for f in present:
+            lemv = os.path.join(lem, f)
+            shutil.copy(os.path.join(COQ, "Lemmas", f), lemv)
+            rc, out = sh(f"timeout 900 coqc {q} {lemv} 2>&1")
+            res["log"] += "\n" + out[-1500:]
+            if rc != 0:
+                res["lemmas_ok"] = False
+                m = re.search(r"line (\d+), characters", out)
+                res["where"] = f"{f[:-2]}.{enclosing(lemv, int(m.group(1)))} (line {m.group(1)})" if m else f"{f} ?"
+                break
     return res
 
 
 def main():
     verbose = "-v" in sys.argv
+    if not os.path.exists(os.path.join(COQ, "Lemmas", "GroupConfigGenLemmas.v")):
+        print("precondition: coq/Lemmas/GroupConfigGenLemmas.v missing")
+        sys.exit(3)
     for f in ("Model/Group.vo", "Gen/GroupGen.vo", "Lemmas/GroupGenLemmas.vo", "Lemmas/GroupLemmas.vo"):
         if not os.path.exists(os.path.join(COQ, f)):
             print(f"precondition: {COQ}/{f} missing -- build coq/ first (make)")
@@ -233,7 +292,7 @@ def main():
             sys.stdout.flush()
     finally:
         shutil.rmtree(top, ignore_errors=True)
-    hdr = ("case", "translator", "generated Gallina", "GroupInitGen.v compiles", "GroupInitGenLemmas.v compiles", "verdict")
+    hdr = ("case", "translator", "generated Gallina", "GroupInitGen.v compiles", "lemma files compile", "verdict")
     fmt = lambda x: "-" if x is None else ("yes" if x is True else ("NO" if x is False else str(x)))  # noqa: E731
     table = [hdr] + [tuple(fmt(c) for c in r) for r in rows]
     widths = [max(len(r[i]) for r in table) for i in range(len(hdr))]
